@@ -27,7 +27,8 @@ type midPlan struct {
 	Confined bool     `json:"confined"`
 }
 
-var segText = map[string]string{"n": "NAME1", "m": "other", "..": "..", ".": ".", "": ""}
+// "m" is a name that has the mailbox directory's own name as a prefix (a neighbouring mailbox), "b" the mailbox directory's own name
+var segText = map[string]string{"n": "NAME1", "m": "mbox-1", "b": "mbox", "..": "..", ".": ".", "": ""}
 
 type snapEntry struct {
 	Size  int64
@@ -101,6 +102,11 @@ func setupSandbox(base string, mid string) (sandbox, mbox string) {
 	for _, d := range []string{"in", "out", "sent", "archive"} {
 		os.MkdirAll(filepath.Join(mbox, d), 0755)
 	}
+	// a neighbouring mailbox whose name starts with this mailbox's name
+	for _, d := range []string{"in", "out", "sent", "archive"} {
+		os.MkdirAll(filepath.Join(sandbox, nest, "mbox-1", d), 0755)
+	}
+	os.WriteFile(filepath.Join(sandbox, nest, "mbox-1", "in", "THEIRS.b2f"), validBait(), 0644)
 	// an unrelated file next to the mailbox and one in each ancestor
 	p := filepath.Join(sandbox, nest)
 	for p != filepath.Dir(sandbox) && len(p) >= len(sandbox) {
@@ -206,7 +212,7 @@ func MainConfine(args []string) int {
 	}
 	specials := []string{"/abs/path", "/etc/passwd", "//double", "a\x00b", "\x00", strings.Repeat("L", 300), strings.Repeat("../", 5) + "deep",
 		"blåbær/../../ø", "..", ".", "", " ", "a b", "..\\..\\win", "x/../../../l1/evil", "../sent/moved", "../../mbox/in/self", "NAME1/", "/",
-		"../neighbour.txt\x00", "..%2f..%2fx", "~/.ssh/key", "con/../..", "a/./../../b"}
+		"../neighbour.txt\x00", "..%2f..%2fx", "../../mbox", "../../mboxx", "../../mbox-1/in/EVIL", "../../mbox-1/in/THEIRS", "../../mbox.b2f/x", "../../mbox-1/out/Q", "~/.ssh/key", "con/../..", "a/./../../b"}
 	for _, s := range specials {
 		cases = append(cases, caseT{s, false, "special"})
 	}
@@ -214,7 +220,7 @@ func MainConfine(args []string) int {
 		n := 1 + rng.Intn(5)
 		segs := make([]string, n)
 		for j := range segs {
-			segs[j] = []string{"..", "..", ".", "", "x", "NAME1", "l6", "l7", "mbox", "in", "out"}[rng.Intn(11)]
+			segs[j] = []string{"..", "..", ".", "", "x", "NAME1", "l6", "l7", "mbox", "in", "out", "mbox-1", "mbox2"}[rng.Intn(13)]
 		}
 		cases = append(cases, caseT{strings.Join(segs, "/"), false, "seeded"})
 	}
